@@ -446,6 +446,8 @@ func (self *visitorUserNode) OnObjectBegin(capacity int) error {
 				return err
 			}
 		}
+		// NOTICE: the field is on the stack now. If it stayed here, the end of an empty object would be taken for the end of a basic value
+		self.globalFieldDesc = nil
 	}
 	return err
 }
@@ -599,6 +601,8 @@ func (self *visitorUserNode) OnArrayBegin(capacity int) error {
 		if err = self.push(false, false, true, self.globalFieldDesc, curNodeLenPos); err != nil {
 			return err
 		}
+		// NOTICE: the field is on the stack now. If it stayed here, the end of an empty array would be taken for the end of a basic value
+		self.globalFieldDesc = nil
 	}
 	return err
 }
